@@ -319,5 +319,7 @@ func okBytes2(_ []byte, err error) ([]byte, error) { return okBytes(err) }
 func entryBytes(e *keyset.Entry) []byte {
 	k := e.Key()
 	id, req := k.IDRequirement()
-	return []byte(fmt.Sprintf("id=%d primary=%v status=%v keytype=%T idreq=%d/%v equalself=%v", e.KeyID(), e.IsPrimary(), e.KeyStatus(), k, id, req, k.Equal(k)))
+	p := k.Parameters()
+	return []byte(fmt.Sprintf("id=%d primary=%v status=%v keytype=%T idreq=%d/%v equalself=%v params=%T hasidreq=%v paramsequal=%v",
+		e.KeyID(), e.IsPrimary(), e.KeyStatus(), k, id, req, k.Equal(k), p, p.HasIDRequirement(), p.Equal(p)))
 }
